@@ -71,6 +71,10 @@ pub fn deserialize_eps_zero<'a, T: ZeroCopy>(
     backend: &mut SliceWithPos<'a>,
 ) -> deser::Result<&'a T> {
     let bytes = core::mem::size_of::<T>();
+    // The serializer aligns the stream also for zero-sized types (whose
+    // alignment unit can be larger than one, e.g., `[u16; 0]`), so the
+    // padding must be skipped in any case.
+    backend.align::<T>()?;
     if bytes == 0 {
         // SAFETY: T is zero-sized, so a dangling (but non-null and aligned)
         // pointer is a valid reference to it. An uninitialized reference
@@ -78,7 +82,6 @@ pub fn deserialize_eps_zero<'a, T: ZeroCopy>(
         // turns an `Option<&T>` into `None`.
         return Ok(unsafe { core::ptr::NonNull::<T>::dangling().as_ref() });
     }
-    backend.align::<T>()?;
     let (pre, data, after) = unsafe { backend.data[..bytes].align_to::<T>() };
     debug_assert!(pre.is_empty());
     debug_assert!(after.is_empty());
